@@ -256,7 +256,18 @@ def run(ctx):
   mpctx = mp.get_context('fork')
   with mpctx.Pool(processes=15) as pool:
     results = list(pool.imap_unordered(run_cell, jobs, chunksize=1))
+    # histories of one CheckKeypairDenylist object (factors recorded from a table entry must belong to THIS modulus)
+    from pv import drive_C06
+    hres = [] if ctx.only_sid and '-kphist-' not in ctx.only_sid else list(
+        pool.imap_unordered(drive_C06.keypair_history_worker, drive_C06.keypair_histories(ctx.quick, ctx.rng, 'C01'), chunksize=1))
   recs, empty = [], 0
+  for hrecs, err in hres:
+    if err:
+      raise tlc.MachineryError('keypair history crashed in the harness:\n%s' % err)
+    for x in hrecs:
+      for a in x['arts']:
+        a['attrs'] = {'family': 'none'}       # C01 judges the evidence only
+    recs += hrecs
   for sid, rs, err in results:
     if err == 'empty':
       empty += 1
